@@ -123,19 +123,50 @@ func flag2(st map[string]any, f string) (bool, bool) {
 
 // outcome of one execution
 type outcome struct {
-	match bool
-	step  int
-	got   ev.M
-	what  string // short class of the divergence, part of the key
-	retry bool   // timing artefact (a tcp.ping appeared): run again
-	infra error  // the script itself could not be executed as written
-	trace []ev.M
-	info  ev.M // observations that are recorded but not judged
+	match     bool
+	step      int
+	got       ev.M
+	what      string // short class of the divergence, part of the key
+	retry     bool   // timing artefact (a tcp.ping appeared): run again
+	infra     error  // the script itself could not be executed as written
+	trace     []ev.M
+	info      ev.M   // observations that are recorded but not judged
+	swallowed string // content class of a packet that never reached the user
 }
 
 func (o *outcome) fail(i int, what string, got ev.M) *outcome {
 	o.match, o.step, o.what, o.got = false, i, what, got
 	return o
+}
+
+// contentClass names a payload by the constructor id it starts with and its length relative to a tcp.pong.
+func contentClass(p []byte) string {
+	name := "other"
+	ids := []struct {
+		n  string
+		id [4]byte
+	}{{"tcp.pong-id", [4]byte{0x03, 0xfb, 0x69, 0xdc}}, {"tcp.ping-id", [4]byte{0x9a, 0x2b, 0x08, 0x4d}},
+		{"tcp.authentificationNonce-id", [4]byte{0xb6, 0x4a, 0x5d, 0xe3}}, {"tcp.authentificationComplete-id", [4]byte{0xa6, 0x9e, 0xad, 0xf7}},
+		{"adnl.message.query-id", [4]byte{0x7a, 0xf9, 0x8b, 0xb4}}, {"adnl.message.answer-id", [4]byte{0x16, 0x84, 0xac, 0x0f}}}
+	for _, x := range ids {
+		if len(p) >= 4 && bytes.Equal(p[:4], x.id[:]) {
+			name = x.n
+		}
+	}
+	switch {
+	case len(p) < 12:
+		return name + ":len<12"
+	case len(p) == 12:
+		return name + ":len=12"
+	}
+	return name + ":len>12"
+}
+
+func head(b []byte, n int) []byte {
+	if len(b) > n {
+		return b[:n]
+	}
+	return b
 }
 
 func isPing(p []byte) bool {
@@ -170,16 +201,38 @@ func runConn(v *Vec, seed int64, attempt int) *outcome {
 	gotC2S, gotS2C := 0, 0 // delivered counts (s2c includes the ack = NewConnection returned nil)
 	// the very Packet values handed out by Responses() (never copies): "received with exactly the payload that
 	// was sent" must still be true of them after later packets have been read
-	var held []liteclient.Packet
+	type heldPkt struct {
+		p   liteclient.Packet
+		idx int // its index in the server->client sequence (1 = the ack)
+	}
+	var held []heldPkt
 	changedAt, changedInfo := -1, ev.M(nil)
 	recheck := func(step int) {
-		for j, hp := range held {
-			h := sha256.Sum256(hp.Payload)
-			tr(ev.M{"k": "Recheck", "d": "s2c", "idx": j + 2, "sha": hex.EncodeToString(h[:])}) // delivered[1] is the ack
-			if changedAt < 0 && !bytes.Equal(hp.Payload, sentPl["s2c"][j+1]) {
-				changedAt, changedInfo = step, ev.M{"packet": j + 2, "len": len(hp.Payload), "after_packets": len(held) + 1}
+		for _, hp := range held {
+			h := sha256.Sum256(hp.p.Payload)
+			tr(ev.M{"k": "Recheck", "d": "s2c", "idx": hp.idx, "sha": hex.EncodeToString(h[:])})
+			if changedAt < 0 && !bytes.Equal(hp.p.Payload, sentPl["s2c"][hp.idx-1]) {
+				changedAt, changedInfo = step, ev.M{"packet": hp.idx, "len": len(hp.p.Payload), "after_packets": len(held) + 1}
 			}
 		}
+	}
+	// server->client packets the specification lets the connection keep or hand on ("free"): resolved when the
+	// next packet that must be handed on arrives, or at the end
+	var pendingFree []int
+	takeFree := func(p liteclient.Packet) bool { // p is the oldest undecided one: it was handed on
+		if len(pendingFree) == 0 || !bytes.Equal(p.Payload, sentPl["s2c"][pendingFree[0]-1]) {
+			return false
+		}
+		tr(ev.M{"k": "Dlv", "d": "s2c", "hex": hex.EncodeToString(p.Payload)})
+		held = append(held, heldPkt{p, pendingFree[0]})
+		pendingFree = pendingFree[1:]
+		return true
+	}
+	keptFree := func() { // the undecided ones were kept by the connection
+		for range pendingFree {
+			tr(ev.M{"k": "Absorb", "d": "s2c"})
+		}
+		pendingFree = nil
 	}
 	closedWrite := false
 	closeWrite := func() {
@@ -244,6 +297,9 @@ func runConn(v *Vec, seed int64, attempt int) *outcome {
 			tr(ev.M{"k": "Send", "d": "s2c", "hex": ""})
 		case "Send":
 			pl := Pattern(d, num(st["idx"]), num(st["size"]))
+			if pre, _ := hex.DecodeString(str(st["pre"])); len(pre) > 0 {
+				copy(pl, pre) // content classes: the payload starts with a constructor id
+			}
 			if h := sha256.Sum256(pl); hex.EncodeToString(h[:]) != str(st["sha"]) {
 				o.infra = fmt.Errorf("vec %d step %d: payload pattern differs from the generator's", v.ID, i)
 				return o
@@ -345,16 +401,37 @@ func runConn(v *Vec, seed int64, attempt int) *outcome {
 				case <-time.After(stepTimeout):
 					return o.fail(i, "NewConnection-hangs", ev.M{"timeout": true})
 				}
+			} else if res == "pkt" && str(st["user"]) == "yes" {
+				// a packet the connection consumes itself (a real tcp.pong): its user sees nothing
+				gotS2C++
+				keptFree()
+				tr(ev.M{"k": "Absorb", "d": d})
+			} else if res == "pkt" && str(st["user"]) == "free" {
+				gotS2C++
+				pendingFree = append(pendingFree, idx)
 			} else if res == "pkt" {
+			wait:
 				select {
 				case p := <-conn.Responses():
+					if takeFree(p) {
+						goto wait
+					}
+					keptFree()
 					gotS2C++
 					tr(ev.M{"k": "Dlv", "d": d, "hex": hex.EncodeToString(p.Payload)})
 					if idx > len(sentPl[d]) || !bytes.Equal(p.Payload, sentPl[d][idx-1]) {
+						for later := idx; later < len(sentPl[d]); later++ {
+							if bytes.Equal(p.Payload, sentPl[d][later]) {
+								// a packet sent after this one arrived in its place: this one never reached the user
+								o.swallowed = contentClass(sentPl[d][idx-1])
+								return o.fail(i, "packet-swallowed", ev.M{"missing": hex.EncodeToString(head(sentPl[d][idx-1], 24)),
+									"missing_len": len(sentPl[d][idx-1]), "arrived_instead_packet": later + 1})
+							}
+						}
 						return o.fail(i, "client-delivered-other-payload", ev.M{"len": len(p.Payload)})
 					}
 					recheck(i) // the earlier packets, now that a later one has been read
-					held = append(held, p)
+					held = append(held, heldPkt{p, idx})
 				case <-time.After(stepTimeout):
 					return o.fail(i, "packet-not-delivered", ev.M{"timeout": true})
 				}
@@ -376,13 +453,18 @@ func runConn(v *Vec, seed int64, attempt int) *outcome {
 				}
 			}
 			if conn != nil {
+			grace:
 				select {
 				case p := <-conn.Responses():
+					if takeFree(p) {
+						goto grace
+					}
 					tr(ev.M{"k": "Dlv", "d": "s2c", "hex": hex.EncodeToString(p.Payload)})
 					return o.fail(i, "extra-packet-delivered", ev.M{"len": len(p.Payload)})
 				case <-time.After(60 * time.Millisecond):
 				}
 			}
+			keptFree()
 			if _, cdead := flag2(st, "dd"); cdead && conn != nil {
 				// the specification's client-side receiver has stopped; what does the Connection say about itself?
 				o.info = ev.M{"receiver_stopped": true, "status_connected": conn.Status() == liteclient.Connected}
@@ -602,6 +684,9 @@ func Replay(in string, w *ev.Writer, op Opts) error {
 			m["key"] = "C11:" + mode + ":" + v.Cls + ":" + o.what
 			if o.what == "payload-changed-after-delivery" {
 				m["key"] = "C11:payload-changed-after-delivery" // one defect class whatever the script
+			}
+			if o.what == "packet-swallowed" {
+				m["key"] = "C11:packet-swallowed:" + o.swallowed // the payload's content class, not the script
 			}
 			if o.what == "client-delivered-other-payload" {
 				m["key"] = "C11:conn:client-delivered-other-payload" // likewise independent of the script's fault class
